@@ -1,14 +1,23 @@
 import Utcp.Lemmas.Keeps
+import Utcp.Lemmas.Notify
+import Utcp.Lemmas.RecvKeeps
 import Utcp.Props.C13
 /-!
 # C02 — delivery status: one verdict per packet, in order, ACK only if accepted
 
 Local part (one endpoint, *arbitrary* incoming headers — hostile ones included): the delivery statuses an
 endpoint reports carry consecutive packet ids, without gap or repetition, and the bookkeeping invariant that
-makes this true (`LastNotifiedPacketId ≡ OutAckSeq (mod 2^14)`) is preserved by every accepted header.  The
-closed-loop soundness statements (ACK ⇒ the peer accepted, NAK ⇒ it never did) are *not* proved in Lean; they
-are checked by the C02 monitor on the real code (`acc` lines of the trace against every `status` line) and
-stated in DESIGN.md, Appendix A.
+makes this true (`LastNotifiedPacketId ≡ OutAckSeq (mod 2^14)`) is preserved by every accepted header.
+
+Closed loop (two endpoints; second half of the file): the receiver's 256-bit register means what the sender takes it to
+mean.  `receivedPacket_rinv` — every way the receive path touches the register is a request "record verdict `v` for the
+packet whose id is `p`" made for a packet it accepted, with `v = true` exactly when none of its bunches was refused;
+`ack_sound` — whenever the sender turns *any* header the receiver can write (any number of history words) into delivery
+statuses, every ACK status names a packet id (mod 2^14) for which the receiver made such a request with verdict `true`.
+Together: **ACK ⇒ the peer accepted that packet and refused none of its bunches.**  What is *not* proved in Lean: the
+uniqueness of the id modulo 2^14 across more than 16384 packets (needs the window hypothesis of the property), the NAK
+direction (`NAK ⇒ never accepted` under the 256-packet hypothesis) and the latency bound; these are checked by the C02
+monitor on the real code (`acc` lines of the trace against every `status` line).
 -/
 namespace Utcp.Props.C02
 open Utcp Utcp.Gen
@@ -182,8 +191,169 @@ theorem notifyUpdate_statuses (e : Env) (c : Conn) (h : NotifHeader) (hinv : Inv
   · simp only [hgt, Bool.false_eq_true, if_false]
     exact ⟨[], by simp [expected], by simp, hinv⟩
 
+/-! ## closed loop: ACK ⇒ the peer accepted the packet -/
+
+/-- the verdicts `packet_notify_update` derives from header `h` in state `c` -/
+def ackVerdicts (c : Conn) (h : NotifHeader) : List (Int × Bool) :=
+  if seq_num_greater_than h.ackedSeq c.notify.outAckSeq then verdicts c.notify.outAckSeq h (seq_num_diff h.ackedSeq c.notify.outAckSeq).toNat else []
+
+/-- `notifyUpdate_statuses` with the verdict list made explicit -/
+theorem notifyUpdate_statuses_explicit (e : Env) (c : Conn) (h : NotifHeader) (hinv : Inv c) :
+    statuses (c.notifyUpdate e h).log = expected c.lastNotified (ackVerdicts c h) ++ statuses c.log := by
+  unfold Conn.notifyUpdate ackVerdicts
+  dsimp only
+  by_cases hgt : seq_num_greater_than h.ackedSeq c.notify.outAckSeq = true
+  · simp only [hgt, if_true]
+    let c0 : Conn := { c with notify := c.notify.updateInAckSeqAck (seq_num_diff h.ackedSeq c.notify.outAckSeq).toNat h.ackedSeq }
+    have hc0a : c0.notify.outAckSeq = c.notify.outAckSeq := by
+      show (c.notify.updateInAckSeqAck _ _).outAckSeq = _
+      unfold Notify.updateInAckSeqAck
+      dsimp only
+      split
+      · split
+        · split <;> rfl
+        · rfl
+      · rfl
+    have hc0l : c0.lastNotified = c.lastNotified := rfl
+    have hinv0 : Inv c0 := by unfold Inv; rw [hc0a, hc0l]; exact hinv
+    have hvs := verdicts_seq c0 h (seq_num_diff h.ackedSeq c.notify.outAckSeq).toNat hinv0
+    rw [hc0a] at hvs
+    exact (handle_fold e (verdicts c.notify.outAckSeq h (seq_num_diff h.ackedSeq c.notify.outAckSeq).toNat) c0 hvs).1
+  · simp only [hgt, Bool.false_eq_true, if_false]
+    simp [expected]
+
+/-- membership in `expected`: the `j`-th verdict is reported for packet `ln + 1 + j` -/
+theorem mem_expected (vs : List (Int × Bool)) : ∀ (ln : Int) (p : Int × Bool), p ∈ expected ln vs →
+    ∃ j, ∃ hj : j < vs.length, p = (ln + 1 + (j : Int), (vs[j]).2) := by
+  induction vs with
+  | nil => intro ln p hp; simp [expected] at hp
+  | cons v rest ih =>
+    intro ln p hp
+    simp only [expected, List.mem_append, List.mem_singleton] at hp
+    rcases hp with hp | rfl
+    · obtain ⟨j, hj, rfl⟩ := ih (ln + 1) p hp
+      refine ⟨j + 1, by simp; omega, ?_⟩
+      simp only [List.getElem_cons_succ]
+      rw [Prod.ext_iff]; simp only; refine ⟨by push_cast; omega, trivial⟩
+    · exact ⟨0, by simp, by simp⟩
+
+/-- **ACK soundness.**  `R` is the receiver's packet-notify state at the moment it writes a header with any number `w` of
+history words; `c` is the sender.  Every ACK status the sender derives from that header is for a packet id that — modulo
+2^14 — the receiver was asked to acknowledge (`calls`), and by `receivedPacket_rinv` such requests are only made for
+packets the receiver accepted and none of whose bunches it refused. -/
+theorem ack_sound (c : Conn) (R : Notify) (tg calls : List (Int × Bool)) (w : Nat) (hR : RInv R tg calls) (hinv : Inv c) :
+    ∀ p, p ∈ expected c.lastNotified (ackVerdicts c (R.headerWith w)) → p.2 = true → (p.1 % 16384, true) ∈ calls := by
+  intro p hp ht
+  obtain ⟨j, hj, rfl⟩ := mem_expected _ _ _ hp
+  simp only at ht ⊢
+  unfold ackVerdicts at hj ht
+  by_cases hgt : seq_num_greater_than (R.headerWith w).ackedSeq c.notify.outAckSeq = true
+  · simp only [hgt, if_true] at hj ht ⊢
+    have ho : 0 ≤ c.notify.outAckSeq ∧ c.notify.outAckSeq < 16384 := by rw [hinv]; omega
+    have hmem := List.getElem_mem hj
+    have hs := verdicts_sound R tg calls w c.notify.outAckSeq hR ho hgt _ hmem ht
+    have hid := verdicts_seq c (R.headerWith w) _ hinv j hj
+    have : (verdicts c.notify.outAckSeq (R.headerWith w) (seq_num_diff (R.headerWith w).ackedSeq c.notify.outAckSeq).toNat)[j]
+        = ((c.lastNotified + 1 + (j : Int)) % 16384, true) := by
+      rw [Prod.ext_iff]; exact ⟨hid, ht⟩
+    rw [this] at hs
+    exact hs
+  · simp [hgt] at hj
+
+/-- the statuses a sender reports on processing the receiver's header, as one statement -/
+theorem ack_status_sound (e : Env) (c : Conn) (R : Notify) (tg calls : List (Int × Bool)) (w : Nat) (hR : RInv R tg calls) (hinv : Inv c) :
+    ∃ news, statuses (c.notifyUpdate e (R.headerWith w)).log = news ++ statuses c.log ∧
+      ∀ p ∈ news, p.2 = true → (p.1 % 16384, true) ∈ calls := by
+  refine ⟨expected c.lastNotified (ackVerdicts c (R.headerWith w)), ?_, ack_sound c R tg calls w hR hinv⟩
+  exact notifyUpdate_statuses_explicit e c _ hinv
+
+/-- `handleNotification` (release on ACK, retransmission on NAK) leaves the receive register alone -/
+theorem handleNotification_reg (e : Env) (c : Conn) (v : Int × Bool) :
+    (c.handleNotification e v).notify.hist = c.notify.hist ∧ (c.handleNotification e v).notify.inAckSeq = c.notify.inAckSeq ∧
+    (c.handleNotification e v).inPacketId = c.inPacketId := by
+  unfold Conn.handleNotification
+  dsimp only
+  split
+  · exact ⟨rfl, rfl, rfl⟩
+  · split
+    · have hk := onAckChans_keeps (c.lastNotified + 1) (c.chans.map (·.1)) { c with lastNotified := c.lastNotified + 1, outAckPacketId := c.lastNotified + 1 }
+      exact ⟨hk.hist, hk.inAckSeq, hk.inPacketId⟩
+    · have hk := onNakChans_keeps e (c.lastNotified + 1) (c.chans.map (·.1)) { c with lastNotified := c.lastNotified + 1 }
+      exact ⟨hk.hist, hk.inAckSeq, hk.inPacketId⟩
+
+theorem notifyUpdate_reg (e : Env) (c : Conn) (h : NotifHeader) :
+    (c.notifyUpdate e h).notify.hist = c.notify.hist ∧ (c.notifyUpdate e h).notify.inAckSeq = c.notify.inAckSeq ∧
+    (c.notifyUpdate e h).inPacketId = c.inPacketId := by
+  unfold Conn.notifyUpdate
+  dsimp only
+  have hfold : ∀ (vs : List (Int × Bool)) (c : Conn), (vs.foldl (Conn.handleNotification e) c).notify.hist = c.notify.hist ∧
+      (vs.foldl (Conn.handleNotification e) c).notify.inAckSeq = c.notify.inAckSeq ∧ (vs.foldl (Conn.handleNotification e) c).inPacketId = c.inPacketId := by
+    intro vs
+    induction vs with
+    | nil => intro c; exact ⟨rfl, rfl, rfl⟩
+    | cons v rest ih =>
+      intro c
+      obtain ⟨a1, a2, a3⟩ := handleNotification_reg e c v
+      obtain ⟨b1, b2, b3⟩ := ih (c.handleNotification e v)
+      exact ⟨b1.trans a1, b2.trans a2, b3.trans a3⟩
+  have hu : ∀ k a, (c.notify.updateInAckSeqAck k a).hist = c.notify.hist ∧ (c.notify.updateInAckSeqAck k a).inAckSeq = c.notify.inAckSeq := by
+    intro k a
+    unfold Notify.updateInAckSeqAck
+    dsimp only
+    split
+    · split
+      · split <;> exact ⟨rfl, rfl⟩
+      · exact ⟨rfl, rfl⟩
+    · exact ⟨rfl, rfl⟩
+  split
+  · obtain ⟨f1, f2, f3⟩ := hfold (verdicts c.notify.outAckSeq h (seq_num_diff h.ackedSeq c.notify.outAckSeq).toNat)
+      { c with notify := c.notify.updateInAckSeqAck (seq_num_diff h.ackedSeq c.notify.outAckSeq).toNat h.ackedSeq }
+    obtain ⟨u1, u2⟩ := hu (seq_num_diff h.ackedSeq c.notify.outAckSeq).toNat h.ackedSeq
+    exact ⟨f1.trans u1, f2.trans u2, f3⟩
+  · exact ⟨rfl, rfl, rfl⟩
+
+/-- **the only way the receive path writes the register**: a datagram body either leaves the register as it was (unparsable
+header, or a stale / duplicate / out-of-window sequence), or it is accepted — the packet-id counter advances to the
+packet's id — and exactly one request is recorded: `(that id mod 2^14, no bunch of the packet was refused)`. -/
+theorem receivedPacket_rinv (e : Env) (c : Conn) (bits : Bits) (tg calls : List (Int × Bool)) (h : RInv c.notify tg calls) :
+    (RInv (c.receivedPacket e bits).1.notify tg calls ∧ (c.receivedPacket e bits).1.inPacketId = c.inPacketId) ∨
+    (c.inPacketId < (c.receivedPacket e bits).1.inPacketId ∧
+      ∃ tg' refused, RInv (c.receivedPacket e bits).1.notify tg' (((c.receivedPacket e bits).1.inPacketId % 16384, !refused) :: calls)) := by
+  unfold Conn.receivedPacket
+  split
+  · left
+    rw [markClose_notify, markClose_inPacketId]
+    exact ⟨h, rfl⟩
+  · rename_i hd rest hdec
+    dsimp only
+    split
+    · left; exact ⟨h, rfl⟩
+    · rename_i hdelta
+      right
+      obtain ⟨n1, n2, n3⟩ := notifyUpdate_reg e { c with inPacketId := c.inPacketId + c.notify.deltaSeq hd } hd
+      generalize ({ c with inPacketId := c.inPacketId + c.notify.deltaSeq hd } : Conn).notifyUpdate e hd = c2 at n1 n2 n3 ⊢
+      have hs := bunchLoop_sameN (rest.length + 1) c2 rest false
+      generalize Conn.bunchLoop (rest.length + 1) c2 rest false = r at hs ⊢
+      obtain ⟨c3, rest', skip⟩ := r
+      simp only at hs ⊢
+      have h3 : RInv c3.notify tg calls := h.congr (by rw [hs.notify]; exact n1) (by rw [hs.notify]; exact n2)
+      have hid : c3.inPacketId = c.inPacketId + c.notify.deltaSeq hd := by rw [hs.inPacketId]; exact n3
+      refine ⟨by rw [hid]; omega, ?_⟩
+      obtain ⟨tg', ht⟩ := ackSeq_rinv c3.notify tg calls c3.inPacketId (!skip) h3
+      exact ⟨tg', skip, ht⟩
+
+/-- `utcp_sequence_init` starts the register empty: no request has been made, no bit is set -/
+theorem seqInit_rinv (c : Conn) (i o : Int) : RInv (c.seqInit i o).notify [] [] := by
+  unfold Conn.seqInit
+  exact init_rinv _ _ _ (by simp only [seq_num_init]; omega)
+
+/-- everything the sending machinery does (flush, header refresh, retransmission, release) keeps the register's meaning -/
+theorem keeps_rinv {c c' : Conn} {tg calls : List (Int × Bool)} (hk : Keeps c c') (h : RInv c.notify tg calls) : RInv c'.notify tg calls :=
+  h.congr hk.hist hk.inAckSeq
+
 /-! non-vacuity -/
 example : Inv ((({} : Conn).seqInit 16383 0)) := seqInit_inv _ _ _
 example : expected 41 [(0, true), (0, false), (0, true)] = [(44, true), (43, false), (42, true)] := by decide
+example : RInv ((({} : Conn).seqInit 5 16383)).notify [] [] := seqInit_rinv _ _ _
 
 end Utcp.Props.C02
